@@ -4,6 +4,7 @@
   RAND_bytes values) and executes the World model, printing the same canonical
   line as the harness.
 -/
+import Rsp.Model.Discover
 import Rsp.Model.World
 import Rsp.Hash.Md5
 import Drive.Ops
@@ -127,11 +128,13 @@ def showSlot (i : Nat) (sl : Slot) : String :=
 def digest (w : World) : String := Id.run do
   let mut out := ""
   for s in w.servers do
-    out := out ++ s!" | S:{bytesStr s.conf.name} st={s.state} lost={s.lost} next={s.nextid} ss={s.ss} slots="
-    let mut i := 0
-    for sl in s.slots do
-      if sl.rq.isSome || sl.tries ≠ 0 then out := out ++ showSlot i sl
-      i := i + 1
+    if s.gone then out := out ++ s!" | S:{bytesStr s.conf.name}:-"
+    else
+      out := out ++ s!" | S:{bytesStr s.conf.name} st={s.state} lost={s.lost} next={s.nextid} ss={s.ss} slots="
+      let mut i := 0
+      for sl in s.slots do
+        if sl.rq.isSome || sl.tries ≠ 0 then out := out ++ showSlot i sl
+        i := i + 1
   let mut k := 0
   for c in w.clients do
     if !c.alive then out := out ++ s!" | C{k}:gone"
@@ -166,7 +169,8 @@ def tail (w : World) : World × String :=
 def withOracle (w : World) (t : Transcript) : World := { w with rx := oracleOf t, rnds := t.rnds }
 
 def cliIdx (w : World) (name : String) : Option Nat := w.cliConfs.findIdx? fun c => c.name = strBytes name
-def srvIdxW (w : World) (name : String) : Option Nat := w.servers.findIdx? fun s => s.conf.name = strBytes name
+/-- a conf whose server object has been released has no server any more: ops naming it are not operations -/
+def srvIdxW (w : World) (name : String) : Option Nat := w.servers.findIdx? fun s => s.conf.name = strBytes name && !s.gone
 
 /-! ### the server-side writer threads under the scheduler (C02 hand-off), at the granularity of whole ops:
     a sleeping writer runs only after it was signalled; when it runs it takes everything that is queued.
@@ -220,7 +224,10 @@ def worldOp1 (st : Option World) (op : String) (args tr : List String) : Option 
       -- every clientwr thread runs to its first timed wait (history ops `waitbound`)
       let w := (List.range wz.servers.length).foldl (fun w i => World.step w (.waitbound i)) wz
       let (w, s) := tail w
-      (some w, "ok" ++ s ++ (if initialOk wz then "" else " MODEL-INITIAL-STATE-NOT-Initial"))
+      -- every TLS / DTLS block has been given its TLS context while the configuration was read
+      let tls := String.join ((a.clis.filter fun c => c.type = 1 || c.type = 3).map fun c => s!" tlsctx:{bytesStr c.name}:1") ++
+                 String.join ((a.srvs.filter fun (_, c, _) => c.type = 1 || c.type = 3).map fun (_, c, _) => s!" tlsctx:{bytesStr c.name}:1")
+      (some w, "ok" ++ tls ++ s ++ (if initialOk wz then "" else " MODEL-INITIAL-STATE-NOT-Initial"))
   | "client", [name], some w =>
     match cliIdx w name with
     | some ci => (some { w with clients := w.clients ++ [{ conf := ci }] }, s!"c{w.clients.length}")
@@ -265,6 +272,10 @@ def worldOp1 (st : Option World) (op : String) (args tr : List String) : Option 
   | "reset", [name], some w =>
     match srvIdxW w name with
     | some si => let (w, s) := tail (connReset w si); (some w, "ok" ++ s)
+    | none => (some w, "bad-op")
+  | "rmserver", [name], some w =>
+    match srvIdxW w name with
+    | some si => let (w, s) := tail (rmserver w si); (some w, "gone" ++ s)
     | none => (some w, "bad-op")
   | "srvstate", [name, stt, lost], some w =>
     match srvIdxW w name, stt.toNat?, lost.toNat? with
@@ -341,6 +352,26 @@ end Drive
 namespace Drive
 open Rsp Rsp.Radmsg Rsp.Rewrite Rsp.World
 
+/-- whether position `pos` has a recorded name decoding (successful or failed) -/
+def nameRecorded (tr : List String) (pos : Nat) : Bool :=
+  tr.any fun t => match t.splitOn ":" with
+    | ["dn", p, _, _] => p.toNat? = some pos
+    | _ => false
+
+/-- the recorded decodings, with every UNRECORDED position answered by a made-up name: if a model result differs between this
+    oracle and the recorded one, the model needed a decoding the implementation never asked for (the two cannot be compared, and
+    must not be taken to agree) -/
+def namesLenient (names : Dns.NameOracle) (tr : List String) (ans : Bytes) (rl : Int) : Dns.NameOracle := fun pos =>
+  if nameRecorded tr pos then names pos
+  else
+    -- as long as the name that stands there in the answer (so that what follows it still lines up)
+    let msg := (ans ++ List.replicate Dns.packetSize 0).take rl.toNat
+    match Dns.skipName 300 msg pos with
+    | some e => some (e - pos, [63])
+    | none => some (1, [63])
+
+def oracleFlag (strict lenient : String) : String := if strict == lenient then strict else strict ++ " MODEL-NEEDS-A-NAME-DECODING-THE-IMPLEMENTATION-NEVER-ASKED-FOR"
+
 /-- `dnsq naptr|srv <retlen> <hex answer>` with the recorded name decodings `dn:<pos>:<ret>:<hex>` -/
 def dnsModel (args tr : List String) : String :=
   let names' : Dns.NameOracle := fun pos =>
@@ -356,15 +387,76 @@ def dnsModel (args tr : List String) : String :=
   | [kind, retlen, h] =>
     match retlen.toInt?, ofHex h with
     | some rl, some ans =>
-      if kind = "naptr" then
-        match Dns.queryNaptr names' ans rl with
-        | none => "null"
-        | some rs => "naptr" ++ String.join (rs.map fun r => s!" {r.order}:{r.pref}:{toHex (cstr r.flags)}:{toHex (cstr r.services)}:{toHex (cstr r.regexp)}:{toHex r.replacement}")
-      else
-        match Dns.querySrv names' ans rl with
-        | none => "null"
-        | some rs => "srv" ++ String.join (rs.map fun r => s!" {r.priority}:{r.weight}:{r.port}:{toHex r.host}")
+      let run (names : Dns.NameOracle) : String :=
+        if kind = "naptr" then
+          match Dns.queryNaptr names ans rl with
+          | none => "null"
+          | some rs => "naptr" ++ String.join (rs.map fun r => s!" {r.order}:{r.pref}:{toHex (cstr r.flags)}:{toHex (cstr r.services)}:{toHex (cstr r.regexp)}:{toHex r.replacement}")
+        else
+          match Dns.querySrv names ans rl with
+          | none => "null"
+          | some rs => "srv" ++ String.join (rs.map fun r => s!" {r.priority}:{r.weight}:{r.port}:{toHex r.host}")
+      oracleFlag (run names') (run (namesLenient names' tr ans rl))
     | _, _ => "bad-op"
+  | _ => "bad-op"
+
+/-- the recorded name decodings of one question's answer -/
+def namesOf (tr : List String) : Dns.NameOracle := fun pos =>
+  (tr.findSome? fun t => match t.splitOn ":" with
+    | ["dn", p, r, h] =>
+      if p.toNat? = some pos then
+        (match r.toNat? with
+         | some n => some (some (n, (ofHex h).getD []))
+         | none => some (none : Option (Nat × Bytes)))
+      else none
+    | _ => none).join
+
+/-- the transcript cut at the questions asked (`dq:`): one segment of name decodings per question -/
+def dqSegments (tr : List String) : List (List String) :=
+  (tr.foldl (fun (acc : List (List String)) t =>
+    if t.startsWith "dq:" then [] :: acc
+    else match acc with
+      | cur :: rest => (cur ++ [t]) :: rest
+      | [] => []) []).reverse
+
+def parseAnswers : List String → Option (List (Int × Bytes))
+  | [] => some []
+  | rl :: h :: rest =>
+    (match rl.toInt?, ofHex h, parseAnswers rest with
+     | some rl, some b, some l => some ((rl, b) :: l)
+     | _, _, _ => none)
+  | _ => none
+
+/-- `dyndns <hex command> <hex id> {<retlen> <hex answer>}...`: discovery through the DNS (naptr: / srv: forms) -/
+def dyndnsModel (args tr : List String) : String :=
+  match args with
+  | c :: i :: rest =>
+    match ofHex c, ofHex i, parseAnswers rest with
+    | some cmd, some id, some answers =>
+      let segs := dqSegments tr
+      let run (mk : List String → Int × Bytes → Dns.NameOracle) : String :=
+      let ans (k : Nat) : Int × Bytes := answers.getD k (-1, [])
+      let showQ (t : Nat) (n : Bytes) : String := s!" q:{t}:{if n.isEmpty then "-" else toHex n}"
+      let notFound (qs : String) : String := "name:64796e hosts:-" ++ qs
+      let showFound (f : Option Discover.Found) (qs : String) : String :=
+        match f with
+        | none => notFound qs
+        | some f => s!"name:{toHex f.name} hosts:" ++ ",".intercalate (f.hosts.map toHex) ++ qs
+      match DynRealm.dynLookup cmd id with
+      | none => "none"
+      | some (realm, .dns 33 q) =>
+        showFound (Discover.fromSrv realm (Dns.querySrv (mk (segs.getD 0 []) (ans 0)) (ans 0).2 (ans 0).1)) (showQ 33 q)
+      | some (realm, .dns _ q) =>
+        (match Dns.queryNaptr (mk (segs.getD 0 []) (ans 0)) (ans 0).2 (ans 0).1 with
+         | none => notFound (showQ 35 q)
+         | some l =>
+           match Discover.naptrPick (Discover.afterColon cmd) l with
+           | none => notFound (showQ 35 q)
+           | some repl =>
+             showFound (Discover.fromSrv realm (Dns.querySrv (mk (segs.getD 1 []) (ans 1)) (ans 1).2 (ans 1).1)) (showQ 35 q ++ showQ 33 (cstr repl)))
+      | some (_, .exec _ _) => "bad-op"
+      oracleFlag (run fun seg _ => namesOf seg) (run fun seg a => namesLenient (namesOf seg) seg a.2 a.1)
+    | _, _, _ => "bad-op"
   | _ => "bad-op"
 
 /-- the history operations (`World.Op`) an op line stands for — the ops the whole-history theorem
@@ -379,6 +471,7 @@ def opsOf (w : World) (op : String) (args tr : List String) : Option (List World
   | "writer", [name] => (srvIdxW w name).map fun si => [orc, .writer si]
   | "tick", [n] => n.toNat?.map fun n => [.tick n]
   | "reset", [name] => (srvIdxW w name).map fun si => [.reset si]
+  | "rmserver", [name] => (srvIdxW w name).map fun si => [.rmserver si]
   | "srvstate", [name, stt, lost] =>
     (match srvIdxW w name, stt.toNat?, lost.toNat? with | some si, some a, some b => some [.srvstate si a b] | _, _, _ => none)
   | "pop", [k] => k.toNat?.map fun k => [.pop k]
@@ -417,6 +510,9 @@ def worldOp (st : Option DState) (op : String) (args tr : List String) : Option 
   | "locks", _, st => (st, "locks")        -- observations of the real code only: nothing to predict
   | "rxeval", _, st => (st, "rxeval")
   | "dnsq", _, st => (st, dnsModel args tr)
+  | "dyndns", _, st => (st, dyndnsModel args tr)
+  | "faultcmp", [_, _], st => (st, "faultcmp")
+  | "faultleak", [_, _], st => (st, "faultleak")
   | "vcert", _, st => (st, vcertModel args tr)
   | "dnsqx", _, st => (st, "dnsqx")
   | "fault", _, st => (st, "fault")         -- the outcome under an allocation failure is judged by the monitor, not predicted
